@@ -33,9 +33,11 @@ MID = (32768, 262144, 4194304)
 HOST = (32768, 1310720, 56623104)
 
 
-def mkcfg(name, caches=SMALL, sse2=1, openmp=0, mmc=1, mzdcache=1, san=SAN, opt="-O1", wrap=False, extra=()):
+def mkcfg(name, caches=SMALL, sse2=1, openmp=0, mmc=1, mzdcache=1, san=SAN, opt="-O1", wrap=False, extra=(), alloc="mm"):
+    # alloc: which branch of the allocation primitives in misc.h is compiled ("mm": _mm_malloc, "posix": posix_memalign,
+    # "malloc": plain malloc/calloc) - configure picks the first that the platform offers
     return dict(name=name, caches=caches, sse2=sse2, openmp=openmp, mmc=mmc, mzdcache=mzdcache, san=list(san),
-                opt=opt, wrap=wrap, extra=list(extra))
+                opt=opt, wrap=wrap, extra=list(extra), alloc=alloc)
 
 
 CONFIGS = {}
@@ -55,6 +57,7 @@ for c in [
     mkcfg("small-wrap-strict", wrap=True, san=STRICT),
     mkcfg("small-nosse-wrap-strict", wrap=True, sse2=0, san=STRICT),
     mkcfg("small-ts-wrap-strict", wrap=True, mmc=0, mzdcache=0, san=STRICT),
+    mkcfg("small-posix-wrap-strict", wrap=True, san=STRICT, alloc="posix"),
     mkcfg("small-omp", openmp=1, mzdcache=0),
     mkcfg("mid-omp", caches=MID, openmp=1, mzdcache=0),
     mkcfg("small-omp-nosse", openmp=1, mzdcache=0, sse2=0),
@@ -86,7 +89,9 @@ def config_header(cfg, real_header=None):
     else:
         text = open(os.path.join(REPO, "m4ri", "m4ri_config.h.in")).read()
         l1, l2, l3 = cfg["caches"]
-        sub = {"M4RI_HAVE_MM_MALLOC": "1", "M4RI_HAVE_POSIX_MEMALIGN": "1", "M4RI_HAVE_SSE2": str(cfg["sse2"]),
+        al = cfg.get("alloc", "mm")
+        sub = {"M4RI_HAVE_MM_MALLOC": "1" if al == "mm" else "0", "M4RI_HAVE_POSIX_MEMALIGN": "0" if al == "malloc" else "1",
+               "M4RI_HAVE_SSE2": str(cfg["sse2"]),
                "M4RI_HAVE_OPENMP": str(cfg["openmp"]), "M4RI_CPU_L1_CACHE": str(l1), "M4RI_CPU_L2_CACHE": str(l2),
                "M4RI_CPU_L3_CACHE": str(l3), "M4RI_DEBUG_DUMP": "0", "M4RI_DEBUG_MZD": "0", "M4RI_HAVE_LIBPNG": "1",
                "CC": "clang", "SIMD_FLAGS": "", "OPENMP_CFLAGS": "", "CFLAGS": "",
